@@ -25,7 +25,7 @@ import (
 // index are read directly, and the verdict on a uniqueness error is a pairwise comparison of key
 // tuples over the collection the call would have produced.
 
-// ---- key tuples and their order (own comparator over bsonkit.Compare) ----
+// ---- key tuples and their order (own comparator, api_keys.go) ----
 
 func keyReverse(key bson.D) []bool {
 	rev := make([]bool, len(key))
@@ -44,7 +44,7 @@ func keyReverse(key bson.D) []bool {
 
 func cmpTuple(a, b []interface{}, rev []bool) int {
 	for i := 0; i < len(a) && i < len(b); i++ {
-		r := bsonkit.Compare(a[i], b[i])
+		r := keyCmp(a[i], b[i])
 		if i < len(rev) && rev[i] {
 			r = -r
 		}
@@ -53,6 +53,18 @@ func cmpTuple(a, b []interface{}, rev []bool) int {
 		}
 	}
 	return 0
+}
+
+func eqTuple(a, b []interface{}) bool {
+	if len(a) != len(b) {
+		return false
+	}
+	for i := range a {
+		if !keyEq(a[i], b[i]) {
+			return false
+		}
+	}
+	return true
 }
 
 func minTuple(ts [][]interface{}, rev []bool) []interface{} {
@@ -231,7 +243,7 @@ nextIndex:
 				}
 				own := false
 				for _, t := range monTuples(e.doc, key) {
-					if cmpTuple(t, e.keys, nil) == 0 {
+					if eqTuple(t, e.keys) {
 						own = true
 						break
 					}
@@ -247,7 +259,7 @@ nextIndex:
 				for _, t := range monTuples(d, key) {
 					found := false
 					for _, k := range have[d] {
-						if cmpTuple(t, k, nil) == 0 {
+						if eqTuple(t, k) {
 							found = true
 							break
 						}
@@ -376,6 +388,15 @@ func (b ixBook) record(c *apiCall, reply string) (out []ixIssue) {
 			}
 		}
 	case "dropCollection":
+		if c.Coll == "" {
+			// Collection("").Drop() is Transaction.Drop with an empty collection name: it drops every
+			// namespace of the database (what Database.Drop does)
+			for k := range b {
+				if k[0] == c.DB {
+					delete(b, k)
+				}
+			}
+		}
 		delete(b, h)
 	case "dropDatabase":
 		for k := range b {
